@@ -1143,7 +1143,7 @@ def run_check(a, prop, tier, exe, workdir, deadline_at):
         plan = [p for p in plan if len(p[2]["edges"]) >= a.min_edges]
     if a.limit:
         plan = plan[:a.limit]
-    reps = a.reps or (2 if tier == "quick" else 3)
+    reps = a.reps or (3 if (tier != "quick" and prop == "C19") else 2)
     if prop == "C19":
         per = lambda h, t: 64  # noqa: E731
         stall = 60
